@@ -13,6 +13,8 @@ if [ "$BASE" = "/tmp/mut3" ]; then [ "$V" = "A" ] && DV=E; [ "$V" = "B" ] && DV=
 if [ "$BASE" = "/tmp/mut4" ]; then [ "$V" = "A" ] && DV=G; [ "$V" = "B" ] && DV=H; fi
 # fifth round: one change per property, stored as I
 if [ "$BASE" = "/tmp/mut5" ]; then [ "$V" = "A" ] && DV=I; fi
+# sixth round: one change for six properties, stored as J
+if [ "$BASE" = "/tmp/mut6" ]; then [ "$V" = "A" ] && DV=J; fi
 WT=$BASE/$P; OUT=$BASE/$P-out; DST=/verif/seeded/$P-$DV
 mkdir -p $DST
 cp $OUT/$V.patch $DST/patch.diff
@@ -44,7 +46,7 @@ import sys, json
 p,v,rw,rwi,tw,npass,results,base,dv=sys.argv[1:10]
 caught=[l.split()[0] for l in results.splitlines() if ' exit=1 ' in l]
 missed=[l.split()[0] for l in results.splitlines() if ' exit=0 ' in l]
-meta={"property":p,"variant":dv,"round": 5 if base.endswith('mut5') else 4 if base.endswith('mut4') else 3 if base.endswith('mut3') else (2 if base.endswith('mut2') else 1),
+meta={"property":p,"variant":dv,"round": 6 if base.endswith('mut6') else 5 if base.endswith('mut5') else 4 if base.endswith('mut4') else 3 if base.endswith('mut3') else (2 if base.endswith('mut2') else 1),
  "needs": open('%s/%s-out/%s.md'%(base,p,v)).read()[:3000] if __import__('os').path.exists('%s/%s-out/%s.md'%(base,p,v)) else "",
  "confirmed":{"demo_passes_without_change": rw=="0", "demo_fails_with_change": rwi not in ("0","n/a"), "existing_suite_passes_with_change": tw=="0", "suite_line": npass},
  "checks_run": results.splitlines(), "caught_by": caught, "missed_by": missed}
